@@ -1140,7 +1140,7 @@ func c13WindowCheck(c *core.Ctx, pkg *packages.Package, R string) {
 		// the entry read from the cache: any local with the two bound fields
 		entry := ""
 		fn.InspectShallow(func(n ast.Node) bool {
-			if sel, ok := n.(*ast.SelectorExpr); ok && sel.Sel.Name == "validForLookbackWindowsStartingAfter" && entry == "" {
+			if sel, ok := n.(*ast.SelectorExpr); ok && (sel.Sel.Name == "validForLookbackWindowsStartingAfter" || sel.Sel.Name == "validForLookbackWindowsStartingBefore" || sel.Sel.Name == "subring") && entry == "" {
 				entry = fn.Canon(sel.X)
 			}
 			return true
